@@ -7,7 +7,8 @@ One map `owner : name → task`, one liveness flag per task.  No reverse map, no
 * `unique t k false` by a running pyscript task: `t` is the owner of `k` afterwards.
 * `unique t k true`: if another task owns `k` the caller is halted for good (it never runs another segment) and
   ownership stays; otherwise as above.
-* when a task ends, every name it owns becomes free.
+* when a task ends, every name it owns becomes free – a task ends AFTER its done-callbacks: from the end of its body
+  (`endBody`, which also ends a kill_me halt) to its end it owns what it owned and may claim more.
 * tasks not started by pyscript never become owners.
 
 (Who has to be *cancelled* is stated on the model – `Inv.displaced`, `C13_mutex` – the spec only says who owns.)
@@ -47,6 +48,7 @@ def Sp.step (s : Sp κ) : Op κ → Sp κ
     { s with alive := upd s.alive t false, halted := upd s.halted t false,
              owner := fun k => if s.owner k = some t then none else s.owner k }
   | .decoNew t k km => if km && (s.owner k).isSome then s else s.unique t k false
+  | .endBody t => if s.alive t then { s with halted := upd s.halted t false } else s   -- its done-callbacks run
 
 def Sp.run (ops : List (Op κ)) : Sp κ := ops.foldl Sp.step Sp.init
 
